@@ -1439,7 +1439,8 @@ fn swap_segments(text: &str, segs: &[(usize, usize)], i: usize, j: usize) -> Opt
 
 /// self-test of the validity check (never set by the check): VH_REWRITE_SABOTAGE=range makes
 /// Parenthesise / WrapInBlock ignore the parentheses that belong to a node, =rename-partial makes
-/// RenameLocal forget one occurrence; the damaged instances must all be discarded
+/// RenameLocal forget one occurrence, =lambda-type makes AnnotateLambda write `unit` instead of the
+/// inferred type; the damaged instances must all be discarded
 fn sabotage(what: &str) -> bool {
   std::env::var("VH_REWRITE_SABOTAGE").map(|v| v == what).unwrap_or(false)
 }
@@ -1517,7 +1518,8 @@ fn apply_site(a: &Analysis, site: &Site, rng: &mut Rng) -> Result<Applied, &'sta
       let mut edits = vec![];
       for p in params {
         let (_, at) = ix.range(&p.name_loc).ok_or("range")?;
-        edits.push(Edit { s: at, e: at, text: format!(": {}", p.text) });
+        let ty = if sabotage("lambda-type") { "unit" } else { p.text.as_str() };
+        edits.push(Edit { s: at, e: at, text: format!(": {ty}") });
         mods.param_annot.insert(p.name_loc, p.shape.clone());
       }
       sources.insert(site.module.clone(), apply_edits(text, edits).ok_or("overlap")?);
